@@ -103,7 +103,7 @@ PROPS.update({
     "C05": {
         "title": "Decompression keeps the message; output is pointer-free, valid and stable",
         "units": ["U6", "U1"],
-        "cone": {"U1": [r"DNSSector::(parse|parse_rr|parse_opt|parse_question|new)$"], "U6": [r"Compress::", r"spec/(uncompress|reader|locality|names|iter)\.rs", r"ResponseIterator::", r"QuestionIterator::", r"TypedIterable::(copy_raw_name|rr_type)$", r"RdataIterable::rr_rdlen$", r"ParsedPacket::into_iter_"]},
+        "cone": {"U1": [r"DNSSector::(parse|parse_rr|parse_opt|parse_question|new)$"], "U6": [r"Compress::", r"spec/(uncompress|reader|locality|names|iter|pfpacket|pfedit)\.rs", r"ResponseIterator::", r"QuestionIterator::", r"TypedIterable::(copy_raw_name|rr_type)$", r"RdataIterable::rr_rdlen$", r"ParsedPacket::into_iter_"]},
         "witness": ("c05", 3000),
         "level": "proof", "design_ref": "DESIGN.md section 5 C05",
         "assumptions": U1_ASSUME + ["units with iterator client loops are verified with --no-lifetime (Verus's lifetime pass over ghost code is off; exec code is borrow-checked by rustc in the real crate)"],
